@@ -144,7 +144,8 @@ def translate(repo=None):
                         "returnRunInfo(proc.returncode,None,None,timeout)") in ex_src,
         kill_on_timeout='proc.kill()' in ex_src,
         communicate_timeout='proc.communicate(timeout=timeout)' in ex_src,
-        normal_record='returnRunInfo(proc.returncode,out.decode(),err.decode(),runtime)' in ex_src,
+        # both streams are decoded injectively (undecodable bytes become lone surrogates: different outputs stay different, F41)
+        normal_record="returnRunInfo(proc.returncode,out.decode(errors='surrogateescape'),err.decode(errors='surrogateescape'),runtime)" in ex_src,
     )
     ce_src = ''.join(ast.unparse(funs['check_exprs']).split())
     facts['check_exprs_writes_then_checks'] = ('tmpfile=tmpfiles.get_tmp_filename()' in ce_src
